@@ -170,10 +170,10 @@ pub fn mod_n_from_hash(ha: &[u8]) -> U256 {
 
     let (sum1, carry1) = r[4].overflowing_add(z[3]);
     r[4] = sum1;
-    let t = z[4] + carry1 as u64;
+    let (t, carry_t) = z[4].overflowing_add(carry1 as u64);
     let (sum2, carry2) = r[5].overflowing_add(t);
     r[5] = sum2;
-    r[6] = u64::from(carry2);
+    r[6] = u64::from(carry2) + u64::from(carry_t);
 
     r = u256_mul(&[r[5], r[6], 0, 0], &SM9_N_MINUS_ONE);
     // Ha - q * (N - 1), kept with its fifth limb: the Barrett quotient q may be short by one or
